@@ -172,6 +172,14 @@ class StoreAdapter(Adapter):
                     anomalies.append("live:validate-disagrees")
         except Exception as ex:  # noqa
             anomalies.append("live:validate-raised")
+        # describe: the three cardinalities of the abstract state (DataStore.tla Describe)
+        try:
+            dd = dict(ctx.ds.describe.to_list())
+            want = {"completed": sum(x != NONE for x in comp.values()), "not_completed": sum(x != NONE for x in nc.values()), "logs": len(ctx.ds.logs)}
+            if not any("unknown" in a or "duplicate" in a for a in anomalies) and dd != want:
+                anomalies.append("live:describe-disagrees")
+        except Exception as ex:  # noqa
+            anomalies.append("live:describe-raised")
         # disk truth: what a newly opened read-only store sees
         ro = self.open_ro(ctx)
         try:
